@@ -51,7 +51,7 @@ class VLoop(asyncio.SelectorEventLoop):
         self._lifo = lifo
         self._n = 0
         super().__init__(selector=_NullSelector(self))
-        self._clock_resolution = 1e-7
+        self._clock_resolution = 1e-6   # > half a grid step (2^-21 s): a deadline snapped downwards is still due
 
     def time(self):
         return self._vtime
